@@ -77,6 +77,7 @@ def merge_results(mod, cases, results, capped, not_run, env):
     samples = []
     harness_errors = []
     walls = {}
+    sample_kinds = {}
     for idx in sorted(results):
         r = results[idx]
         if r.get('worker_died'):
@@ -101,8 +102,11 @@ def merge_results(mod, cases, results, capped, not_run, env):
                 viol_by_key[k_]['count'] += n_
         if r['agg'] is not None:
             aggs.append((idx, r['agg']))
-        if r['sample'] is not None and len(samples) < 6:
-            samples.append(r['sample'])
+        if r['sample'] is not None:
+            kk = cases[idx].get('kind', 'case')
+            if sample_kinds.get(kk, 0) < (1 if len(sample_kinds) >= 6 else 2) and len(samples) < 12:
+                sample_kinds[kk] = sample_kinds.get(kk, 0) + 1
+                samples.append(r['sample'])
     # cross-case invariants
     if hasattr(mod, 'finalize') and not harness_errors:
         fin = core.Out()
